@@ -95,6 +95,13 @@ def reserialise(text, style):
     if style == "library":
         return text
     doc = json.loads(text)
+    if doc.get("matrix_type") == "sparse":
+        # BIOM 1.0 does not prescribe an order of the [row, col, value]
+        # triples: other writers list them column by column or backwards
+        if style in ("default", "spaced", "indent2"):
+            doc["data"] = doc["data"][::-1]
+        elif style == "compact":
+            doc["data"] = sorted(doc["data"], key=lambda x: (x[1], x[0]))
     if style == "default":
         return json.dumps(doc)
     if style == "compact":
